@@ -107,6 +107,8 @@ struct Spec
     long long horizon = 3000000;      // node-visit horizon per search
     Poison poison;
     bool record_keys = false;         // dry run: record (key, fen) probed at ply <= 2 in the last go
+    bool overlap = false;             // fast GUI: the 2nd `go` is processed as soon as the 1st bestmove line is out, while the
+                                      // first search thread is still inside its last statements; later lines wait for its end
 };
 
 struct Outcome
@@ -128,6 +130,8 @@ struct ChildState
     std::mutex m;
     std::condition_variable cv;
     bool searching = false;
+    int active = 0, spawned = 0, ended = 0;
+    bool first_best_out = false;
     int go_index = -1, n_go = 0, line_index = -1;
     long long visits = 0;
     std::vector<long long> all_visits, all_think;
@@ -137,6 +141,7 @@ struct ChildState
     std::vector<std::pair<uint64_t, std::string>> keys;
 };
 inline ChildState* CS = nullptr;
+inline thread_local bool t_printing_bestmove = false;
 
 inline void do_poison(const Poison& p);
 
@@ -149,7 +154,21 @@ inline void hook(int point, void* search, const void* a, const void* b)
     {
         std::string line = static_cast<const char*>(a);
         bool is_stop = line.rfind("stop", 0) == 0 || line.rfind("isready", 0) == 0;
-        if (!is_stop)
+        bool is_go_line = line.rfind("go", 0) == 0;
+        if (c.spec->overlap && is_go_line && c.go_index == 0)
+        {
+            // second go of an overlapping session: as soon as the first bestmove line is complete
+            std::unique_lock<std::mutex> lk(c.m);
+            c.cv.wait(lk, [&] { return c.first_best_out || c.ended >= 1; });
+        }
+        else if (c.spec->overlap && c.go_index >= 1)
+        {
+            // everything after the second go waits until the first search thread has really ended
+            std::unique_lock<std::mutex> lk(c.m);
+            c.cv.wait(lk, [&] { return c.ended >= 1; });
+            if (!is_stop) c.cv.wait(lk, [&] { return c.active == 0; });
+        }
+        else if (!is_stop)
         {
             std::unique_lock<std::mutex> lk(c.m);
             c.cv.wait(lk, [&] { return !c.searching; });
@@ -160,6 +179,7 @@ inline void hook(int point, void* search, const void* a, const void* b)
         {
             std::unique_lock<std::mutex> lk(c.m);
             c.searching = true;
+            c.active++;
             c.go_index++;
             c.visits = 0;
             c.t_go = vclock::now_ns.load();
@@ -191,6 +211,31 @@ inline void hook(int point, void* search, const void* a, const void* b)
         }
         break;
     }
+    case verif::UCI_GO_SPAWNED:
+    {
+        std::unique_lock<std::mutex> lk(c.m);
+        c.spawned++;
+        c.cv.notify_all();
+        break;
+    }
+    case verif::GO_BESTMOVE:
+        t_printing_bestmove = true;
+        break;
+    case verif::IO_UNLOCKING:
+    {
+        if (!t_printing_bestmove) break;
+        t_printing_bestmove = false;
+        if (c.spec->overlap && !c.first_best_out)
+        {
+            // the first bestmove line is complete: let the reader thread handle the next `go` now, and hold
+            // this (first) search thread before its last statements until the new search thread exists
+            std::unique_lock<std::mutex> lk(c.m);
+            c.first_best_out = true;
+            c.cv.notify_all();
+            if (c.n_go >= 2) c.cv.wait(lk, [&] { return c.spawned >= 2; });
+        }
+        break;
+    }
     case verif::THREAD_START:
     case verif::GO_ENTER:
     case verif::GO_INIT_DONE:
@@ -207,7 +252,9 @@ inline void hook(int point, void* search, const void* a, const void* b)
         std::unique_lock<std::mutex> lk(c.m);
         c.all_visits.push_back(c.visits);
         c.all_think.push_back((vclock::now_ns.load() - c.t_go) / 1000000LL);
-        c.searching = false;
+        c.ended++;
+        c.active--;
+        c.searching = c.active > 0;
         c.cv.notify_all();
         break;
     }
